@@ -402,6 +402,38 @@ func symbolicStringFunc(fr *frame, name string, args []value) (value, bool) {
 			return strValue(rest), true
 		}
 		return strValue(a), true
+	case "strings.Split":
+		a, ok1 := str(0)
+		b, ok2 := str(1)
+		if !ok1 || !ok2 || !b.isConst() || len(b.S) != 1 {
+			return nil, false
+		}
+		sep := b.S[0]
+		var out []value
+		var cur []*Term
+		for _, p := range strParts(a) {
+			if p.isConst() {
+				rest := p.S
+				for {
+					idx := indexByte(rest, sep)
+					if idx < 0 {
+						break
+					}
+					cur = append(cur, mkStr(rest[:idx]))
+					out = append(out, strValue(mkConcat(cur...)))
+					cur = nil
+					rest = rest[idx+1:]
+				}
+				cur = append(cur, mkStr(rest))
+				continue
+			}
+			if !fr.i.ps.partExcludes(p, sep) {
+				unsupported("strings.Split of symbolic string %s whose parts may contain %q", a, b.S)
+			}
+			cur = append(cur, p)
+		}
+		out = append(out, strValue(mkConcat(cur...)))
+		return out, true
 	case "strings.Cut":
 		a, ok1 := str(0)
 		b, ok2 := str(1)
